@@ -18,6 +18,9 @@ request grammar (one line per case; see lean/Driver/C19.lean):
   res.<macro> <ok:v|err:e> <form>                                     -> <value>|calls:<n>
   try.<macro> <value> <form>                                          -> ret:<residual>|calls:<n> / val:<v>|calls:<n>
   rebind.<macro> <ok:v1,..,vn | err:e:n> <kinds>                      -> accept:<flow>:<slot;..> / reject
+  rebind.<macro> <ok:v1,..,vn | err:e:n> o:<place>,<place>,..         -> accept:<flow>:<x0,x1,x2>;<tp>;<arr>;<lets|-> / reject
+      (order-observing: places xN | aN = arr[ix(xN)] | t0 t1 = tp.0 tp.1 | at = arr[ix(tp.0)] | lN = let xN |
+       LN = let xN: i64 | w = _ ; the oracle is the hand-written sequence `p0 = t.0; p1 = t.1; ...`)
   mm.<macro> <form> <akey>:<aid> <bkey>:<bid>                         -> id of the returned argument
 """
 import os, random, itertools
@@ -90,6 +93,13 @@ type A = i64; type B = i64; type C = i64; type D = i64; type E = i64; type F = i
 pub struct St<T> { pub f: T }
 pub fn let_slot(lets: &Option<Vec<String>>, i: usize) -> String {
     match lets { Some(v) => v[i].clone(), None => "-".to_string() }
+}
+// ---- order-observing rebind bench: a small store whose places depend on each other ----
+pub fn ix(v: i64) -> usize { v.rem_euclid(8) as usize }
+pub fn store_show(x0: i64, x1: i64, x2: i64, tp: (i64, i64), arr: &[i64; 8], lets: &Option<Vec<String>>) -> String {
+    let a: Vec<String> = arr.iter().map(|v| v.to_string()).collect();
+    let l = match lets { Some(v) if !v.is_empty() => v.join(","), _ => "-".to_string() };
+    format!("{},{},{};{},{};{};{}", x0, x1, x2, tp.0, tp.1, a.join(","), l)
 }
 '''
 
@@ -371,6 +381,189 @@ def rebind_unit(idx, macro, n, kinds, bare=False, trailing=False):
     return u
 
 
+# ---- order-observing units: places that depend on each other / repeat --------------------------
+# descriptor -> (pattern tokens, hand-written statement for component c); same table in lean/Driver/C19.lean
+ORDER_DECL = ("    let mut x0: i64 = 96; let mut x1: i64 = 101; let mut x2: i64 = 104;\n"
+              "    let mut tp: (i64, i64) = (109, 110);\n"
+              "    let mut arr: [i64; 8] = [-200, -201, -202, -203, -204, -205, -206, -207];")
+ORDER_INIT = {"x": [96, 101, 104], "tp": [109, 110], "arr": [-200 - i for i in range(8)]}
+ORDER_ALPHABET = (["x0", "x1", "x2", "a0", "a1", "a2", "t0", "t1", "at", "l0", "l1", "l2", "L0", "L1", "L2", "w"])
+
+
+def order_tokens(d):
+    """(pattern, statement template with {c} = the component expression)"""
+    v = d[1:]
+    if d == "w":
+        return "_", "let _ = {c};"
+    if d == "at":
+        return "arr[ix(tp.0)]", "arr[ix(tp.0)] = {c};"
+    if d[0] == "x":
+        return f"x{v}", f"x{v} = {{c}};"
+    if d[0] == "a":
+        return f"arr[ix(x{v})]", f"arr[ix(x{v})] = {{c}};"
+    if d[0] == "t":
+        return f"tp.{v}", f"tp.{v} = {{c}};"
+    if d[0] == "l":
+        return f"let x{v}", f"let x{v} = {{c}};"
+    if d[0] == "L":
+        return f"let x{v}: i64", f"let x{v}: i64 = {{c}};"
+    raise ValueError(d)
+
+
+def order_wellformed(descs):
+    # a variable is either assigned as a place or `let`-bound by the pattern list (the binding is immutable)
+    return 2 <= len(descs) <= 6 and not any(f"x{n}" in descs and (f"l{n}" in descs or f"L{n}" in descs) for n in "012")
+
+
+def order_sim(descs, vals, order):
+    """store after assigning component c to descs[c] for c in `order` — used ONLY to select cases whose
+    outcome depends on the order (the expected values come from the hand-written Rust sequence)"""
+    x, tp, arr, lets = list(ORDER_INIT["x"]), list(ORDER_INIT["tp"]), list(ORDER_INIT["arr"]), {}
+    rd = lambda n: lets.get(n, x[n])
+    for c in order:
+        d, v = descs[c], vals[c]
+        if d == "w":
+            pass
+        elif d == "at":
+            arr[tp[0] % 8] = v
+        elif d[0] == "x":
+            x[int(d[1])] = v
+        elif d[0] == "a":
+            arr[rd(int(d[1])) % 8] = v
+        elif d[0] == "t":
+            tp[int(d[1])] = v
+        else:
+            lets[int(d[1])] = v
+    return (x, tp, arr, sorted(lets.items()))
+
+
+ORDER_VALS_A = [11, 22, 33, 44, 55, 66]
+ORDER_VALS_B = [-3, 14, -9, 8, -15, 2]
+
+
+def rebind_order_unit(uid, macro, descs):
+    k = len(descs)
+    base = macro.replace("_nc", "")
+    pty = tuple_ty(k)
+    toks = [order_tokens(d) for d in descs]
+    pat = "(" + ", ".join(t[0] for t in toks) + ")"
+    seq = " ".join(t[1].format(c=f"t.{c}") for c, t in enumerate(toks))     # p0 = t.0; p1 = t.1; ...
+    letvec = "vec![" + ", ".join(f"x{d[1]}.show()" for d in descs if d[0] in "lL") + "]"
+    tail = "    format!(\"accept:{}:{}\", flow, store_show(x0, x1, x2, tp, &arr, &lets))"
+    d = ORDER_DECL
+    if base == "try_rebind":
+        tpl = (f"{d}\n    let res: Result<Vec<String>, i64> = (|| {{\n        STMTS\n        Ok({letvec})\n    }})();\n"
+               "    let (flow, lets) = match res { Ok(v) => (\"ok\".to_string(), Some(v)), Err(e) => (format!(\"ret:{}\", e), None) };\n" + tail)
+        impl = tpl.replace("STMTS", f"konst::try_rebind!{{{pat} = r}}")
+        oracle = tpl.replace("STMTS", f"let t = r?; {seq}")
+    elif macro == "rebind_if_ok":
+        code = f"ran = true;\n        lets = Some({letvec});"
+        pre = f"{d}\n    let mut lets: Option<Vec<String>> = None;\n    let mut ran = false;\n"
+        post = "    let flow = if ran { \"ok\" } else { \"skip\" };\n" + tail
+        impl = pre + f"    konst::rebind_if_ok!{{{pat} = r =>\n        {code}\n    }}\n" + post
+        oracle = pre + f"    if let Ok(t) = r {{\n        {seq}\n        {code}\n    }}\n" + post
+    else:
+        pre = f"{d}\n    let lets: Option<Vec<String>> = None;\n    let isok = r.is_ok();\n"
+        post = "    let flow = if isok { \"ok\" } else { \"skip\" };\n" + tail
+        impl = pre + f"    konst::rebind_if_ok!{{{pat} = r}}\n" + post
+        oracle = pre + f"    if let Ok(t) = r {{\n        {seq}\n    }}\n" + post
+    u = Unit(uid, "rb", impl, oracle, (f"rebind.{macro} ", " o:" + ",".join(descs)), scope=True, argty=pty)
+    u.n = k
+    u.order = True
+    u.data = []
+    for vs in (ORDER_VALS_A[:k], ORDER_VALS_B[:k]):
+        u.data.append(("Ok((" + ",".join(str(v) for v in vs) + "))", "ok:" + ",".join(str(v) for v in vs)))
+    u.data.append(("Err(5)", f"err:5:{k}"))
+    return u
+
+
+# ordered pairs of places whose outcome depends on which is assigned first ({n}, {m}: variable numbers)
+ORDER_CONFLICTS = [
+    ("x{n}", "a{n}"),    # (i, arr[i]): the index is assigned by an EARLIER component
+    ("a{n}", "x{n}"),    # (arr[i], i): ... by a LATER component
+    ("t0", "at"),        # (a.0, b[a.0])
+    ("at", "t0"),
+    ("l{n}", "a{n}"),    # (let i, arr[i]): the binding shadows from there on
+    ("L{n}", "a{n}"),
+    ("a{n}", "l{n}"),    # (arr[i], let i): the outer i is still the one in scope
+    ("x{n}", "x{n}"),    # the same place twice: the last listed component stays
+    ("a{n}", "a{n}"),
+    ("t1", "t1"),
+    ("t0", "t0"),
+    ("l{n}", "L{n}"),    # two bindings of one name: the later one is the one the code sees
+]
+
+
+def rebind_order_specs(tier, seed):
+    """(macro, descriptors): for every macro and arity 2..=6, every conflict kind at a rotating adjacent
+    pair of positions and every other kind also at a non-adjacent pair (thorough: at every pair), the rest filled with independent places, `let`s and `_`;
+    plus triples and chains.  Every case is checked (by simulation) to distinguish first-to-last from
+    last-to-first and from exchanging the two conflicting assignments."""
+    rng = random.Random(seed * 104729 + 1919)
+    out, seen = [], set()
+
+    def sensitive(descs, i, j):
+        k = len(descs)
+        fwd = order_sim(descs, ORDER_VALS_A, range(k))
+        swp = list(range(k)); swp[i], swp[j] = swp[j], swp[i]
+        return fwd != order_sim(descs, ORDER_VALS_A, range(k - 1, -1, -1)) and fwd != order_sim(descs, ORDER_VALS_A, swp)
+
+    def add(macro, descs, i, j):
+        assert order_wellformed(descs) and sensitive(descs, i, j), descs
+        if (macro, tuple(descs)) not in seen:
+            seen.add((macro, tuple(descs)))
+            out.append((macro, list(descs)))
+
+    def fill(macro, k, i, j, a, b):
+        for _ in range(200):
+            descs = [rng.choice(ORDER_ALPHABET) for _ in range(k)]
+            descs[i], descs[j] = a, b
+            if order_wellformed(descs) and sensitive(descs, i, j) and (macro, tuple(descs)) not in seen:
+                return add(macro, descs, i, j)
+        raise RuntimeError(f"no order-sensitive filling for {k} {i} {j} {a} {b}")
+
+    for mi, macro in enumerate(("try_rebind", "rebind_if_ok")):
+        for k in range(2, 7):
+            pairs = [(i, j) for i in range(k) for j in range(i + 1, k)]
+            for ti, (a, b) in enumerate(ORDER_CONFLICTS):
+                n = (ti + k + mi) % 3
+                a, b = a.format(n=n), b.format(n=n)
+                if tier == "quick":
+                    # an adjacent pair (every (j, j+1) is hit by >= 2 conflict kinds per macro) and, for every
+                    # other kind, a non-adjacent pair
+                    chosen = [((ti + mi) % (k - 1), (ti + mi) % (k - 1) + 1)]
+                    far = [p for p in pairs if p[1] > p[0] + 1]
+                    if far and ti % 2 == mi:
+                        chosen.append(far[(ti // 2 + 3 * mi) % len(far)])
+                else:
+                    chosen = pairs
+                for (i, j) in chosen:
+                    fill(macro, k, i, j, a, b)
+            # the same place three times / an index assigned, used, assigned again / chains
+            if k >= 3:
+                for tri in (("x0", "x0", "x0"), ("x1", "a1", "x1"), ("a2", "x2", "a2"), ("t0", "at", "t0"),
+                            ("l0", "a0", "L0")):
+                    pos = sorted(rng.sample(range(k), 3))
+                    descs = ["w" if rng.random() < 0.5 else rng.choice(["l1", "L2", "t1", "w"]) for _ in range(k)]
+                    if tri[0][0] in "lL":
+                        descs = [("w" if d[0] in "lL" else d) for d in descs]
+                    for p_, d_ in zip(pos, tri):
+                        descs[p_] = d_
+                    if tri[1] == "a1":
+                        descs = [("w" if d == "l1" else d) for d in descs]
+                    if tri[1] == "x2":
+                        descs = [("w" if d == "L2" else d) for d in descs]
+                    add(macro, descs, pos[0], pos[2])
+            # every pattern is the same variable / a chain x0 -> arr[x0] over the whole list
+            add(macro, ["x0"] * k, 0, k - 1)
+            add(macro, (["x0", "a0"] * 3)[:k], 0, 1)
+            add(macro, (["a1", "x1"] * 3)[:k], 0, 1)
+    for descs, i, j in ((["x0", "a0"], 0, 1), (["a0", "x0"], 0, 1), (["x1", "x1", "x1"], 0, 2), (["t0", "w", "at"], 0, 2),
+                        (["x2", "a2", "x2", "a2", "x2", "a2"], 0, 1), (["L0", "a0", "w", "l1"], 0, 1)):
+        add("rebind_if_ok_nc", descs, i, j)
+    return out
+
+
 def payloads(n, tier):
     """(rust expression, request token) for the Ok/Err arguments of a rebind unit of payload arity n"""
     base = [10 * (i + 1) for i in range(n)]
@@ -446,6 +639,8 @@ def rebind_units(tier, seed):
         u.expect_reject = er
         u.data = payloads(u.n, tier)
         U.append(u)
+    for i, (macro, descs) in enumerate(rebind_order_specs(tier, seed)):
+        U.append(rebind_order_unit(f"rbo{i}", macro, descs))
     return U
 
 
@@ -579,7 +774,7 @@ def generate(ctx):
     stats["units"] = len(units)
     fam = {}
     for u in units:
-        key = u.req[0].split(".")[0] + ("" if u.argkind != "rb" else f".arity{len([c for c in u.req[1].replace('b:', '').strip().split(',') if c and c != '-'])}")
+        key = u.req[0].split(".")[0] + (".order" if getattr(u, "order", False) else "") + ("" if u.argkind != "rb" else f".arity{len([c for c in u.req[1].replace('b:', '').strip().split(',') if c and c != '-'])}")
         fam[key] = fam.get(key, 0) + 1
     stats["units_by_family"] = dict(sorted(fam.items()))
     stats["units_rejected_by_rustc"] = sorted(u.req[0] + "*" + u.req[1] for u in units if u.rejected)[:40]
